@@ -21,6 +21,9 @@ EXPLANATION = (
 EXPLANATION += (
     ' ADDED: Every hash-update site is checked separately (alternative branches allowed, two sites on one path are not); a site that hashes the whole group buffer is a violation; the per-group count is decided semantically (rule of C01.9); a local alias of the region is followed.'
 )
+EXPLANATION += (
+    ' C20.2 also: the hash object is created per conversion (inside the conversion loop or a run() body), never in a constructor or kept on an object that can run several conversions.'
+)
 ASSUMPTIONS = ['hashlib sha1; numpy .copy() yields C-contiguous float32 bytes; producers run on the calling thread in group order (C16)']
 NOT_DECIDED = 'Equality with SHA-1 of the source samples (values); equality between the two SEG-Y readers (segyio semantics).'
 
